@@ -208,6 +208,11 @@ def make_algo(scenario, p):
     kind, n, g = scenario[0], scenario[1], scenario[2]
     if kind == "nsga2":
         from artap.algorithm_NSGAII import NSGAII
+        if "worstcase" in scenario:
+            # robust evaluation: every design gets 2n neighbour designs (plain Individual objects, synchronised through
+            # the same Job) and one more cost entry afterwards
+            from artap.algorithm import EvaluatorType
+            return NSGAII(p, evaluator_type=EvaluatorType.WORST_CASE)
         return NSGAII(p)
     if kind == "epsmoea":
         from artap.algorithm_genetic import EpsMOEA
@@ -240,11 +245,20 @@ def child_main(db, log, crash_at, scenario, seed, scratch):
         class P(Problem):
             def set(self, **kw):
                 self.name = "c11"
-                self.parameters = [{"name": "a", "bounds": [0.0, 1.0]}, {"name": "b", "bounds": [-1.0, 1.0]}]
+                self.parameters = [{"name": "a", "bounds": [0.0, 1.0], "tol": 0.01}, {"name": "b", "bounds": [-1.0, 1.0], "tol": 0.02}]
                 self.costs = [{"name": "f1", "criteria": "minimize"}, {"name": "f2", "criteria": "minimize"}]
+                self.ncalls = 0
 
             def evaluate(self, ind):
                 rec.tick("objective")
+                if "faulty" in scenario:
+                    # every third call fails transiently: the design is re-sampled and retried (never two in a row)
+                    with rec.lock:
+                        self.ncalls += 1
+                        k = self.ncalls
+                    if k % 3 == 2:
+                        rec.tick("objective-fails")
+                        raise (RuntimeError if k % 2 else TimeoutError)("injected transient failure")
                 return objective(ind.vector)
 
         p = P()
@@ -259,7 +273,7 @@ def child_main(db, log, crash_at, scenario, seed, scratch):
 
         def sync_individual(ind, *a, **k):
             r = orig_sync(ind, *a, **k)
-            rec.tick("sync-return %d" % ind.id)
+            rec.tick("sync-return %d %d" % (ind.id, blob_hash(repr([float(x) for x in ind.vector]))))
             return r
 
         def sync_all():
@@ -409,24 +423,29 @@ def read_back(db):
     return res
 
 
-def check_point(ctx, evs, rb, lines, pending):
+def check_point(ctx, evs, rb, lines, pending, scenario=()):
     """Queue the model request for one crash point; returns an immediate error or None."""
+    ncosts = (2, 3) if "worstcase" in scenario else (2,)     # the worst-case evaluator appends one cost entry later
     if not rb["readable"]:
         return "store not readable after the crash: %s" % rb["error"]
     if rb["problem"]["name"] != "c11" or rb["problem"]["parameters"] != 2 or rb["problem"]["costs"] != 2:
         return "problem definition read back wrong: %r" % (rb["problem"],)
     for r in rb["view"]:
-        if len(r["vector"]) != 2 or len(r["costs"]) != 2 or len(r["signed"]) != 3:
+        if len(r["vector"]) != 2 or len(r["costs"]) not in ncosts or len(r["signed"]) != len(r["costs"]) + 1:
             return "partially written individual %r" % (r,)
         want = objective(r["vector"])
-        if r["costs"] != want:
+        if r["costs"][:2] != want:
             return "row %d: costs %r do not match its vector %r (objective gives %r)" % (r["id"], r["costs"], r["vector"], want)
         if [float(x) for x in r["signed"][:2]] != [float(round(c, 7)) for c in want]:
             return "row %d: signed costs %r do not match costs %r" % (r["id"], r["signed"], want)
     found = {r["id"] for r in rb["view"]}
+    vec_of = {r["id"]: blob_hash(repr([float(x) for x in r["vector"]])) for r in rb["view"]}
     for e in evs:
         if e[0] == "sync-return" and int(e[1]) not in found:
             return "synchronisation of individual %s had returned before the crash but the store has no row for it" % e[1]
+        if e[0] == "sync-return" and len(e) > 2 and vec_of.get(int(e[1])) != int(e[2]):
+            return ("synchronisation of individual %s had returned before the crash, but the row with its id holds another design "
+                    "(vector %r): the individual itself is not present" % (e[1], [r["vector"] for r in rb["view"] if r["id"] == int(e[1])][0]))
         if e[0] == "batch-return" and len(e) > 1:
             missing = [i for i in e[1].split("+") if i and int(i) not in found]
             if missing:
@@ -449,8 +468,10 @@ def check_point(ctx, evs, rb, lines, pending):
     return None
 
 
-SCEN_QUICK = [("nsga2", 3, 2, 1), ("nsga2", 3, 2, 2), ("epsmoea", 3, 2, 1), ("sweep", 3, 2, 2), ("nsga2", 3, 2, 1, "contend"), ("sweep", 3, 2, 1, "late-store")]
-SCEN_THOROUGH = [("nsga2", 4, 3, 1), ("nsga2", 4, 3, 3), ("epsmoea", 3, 2, 2), ("epsmoea", 4, 3, 1), ("sweep", 3, 2, 1), ("sweep", 5, 2, 3), ("nsga2", 3, 2, 2, "contend"), ("epsmoea", 3, 2, 1, "contend"), ("nsga2", 3, 2, 2, "late-store")]
+SCEN_QUICK = [("nsga2", 3, 2, 1), ("nsga2", 3, 2, 2), ("epsmoea", 3, 2, 1), ("sweep", 3, 2, 2), ("nsga2", 3, 2, 1, "contend"), ("sweep", 3, 2, 1, "late-store"),
+              ("sweep", 3, 2, 1, "faulty"), ("nsga2", 2, 2, 1, "worstcase")]
+SCEN_THOROUGH = [("nsga2", 4, 3, 1), ("nsga2", 4, 3, 3), ("epsmoea", 3, 2, 2), ("epsmoea", 4, 3, 1), ("sweep", 3, 2, 1), ("sweep", 5, 2, 3), ("nsga2", 3, 2, 2, "contend"), ("epsmoea", 3, 2, 1, "contend"), ("nsga2", 3, 2, 2, "late-store"),
+                 ("nsga2", 3, 2, 2, "faulty"), ("epsmoea", 3, 2, 1, "faulty"), ("nsga2", 3, 2, 2, "worstcase")]
 
 
 def run(ctx):
@@ -480,7 +501,7 @@ def run(ctx):
             ref = parse_log(db0 + ".log")
             if rc == -99 and any(e[0] == "STORE-CREATED" for e in ref):
                 # the writer hung and was killed: that is a crash point too - look at what it left behind
-                err = check_point(ctx, ref, read_back(db0), [], [])
+                err = check_point(ctx, ref, read_back(db0), [], [], scen)
                 if err:
                     ctx.fail("crash-consistency", "%s; scenario %r, writer killed after %d events (it did not finish within 40 s)" % (
                         err, scen, len(ref)), {"scenario": list(scen), "seed": seed, "mode": "exit", "crash_at": len(ref),
@@ -543,7 +564,7 @@ def run(ctx):
                                  "rows_found": len(rb["rows"] or [])})
                 ctx.count("crash_after_" + (evs[-1][0] if evs else "nothing"))
                 ctx.count("mode_" + mode)
-                err = check_point(ctx, evs, rb, lines, pending)
+                err = check_point(ctx, evs, rb, lines, pending, scen)
                 if err and not ctx.failures:
                     ctx.fail("crash-consistency", "%s; scenario %r, crash (%s) after event %d '%s'" % (
                         err, scen, mode, len(evs), " ".join(evs[-1]) if evs else ""),
@@ -611,7 +632,7 @@ def replay(ctx, rp):
         evs = parse_log(db + ".log")
         rb = read_back(db)
         lines, pending = [], []
-        err = check_point(ctx, evs, rb, lines, pending)
+        err = check_point(ctx, evs, rb, lines, pending, tuple(c["scenario"]))
         print("crash after event %d (%s): %s" % (len(evs), " ".join(evs[-1]) if evs else "", err or "row-level checks pass"))
         if err:
             return False
